@@ -101,6 +101,46 @@ def content_of(ty):
 SER_IMPL = re.compile(r"<impl serde_core::ser::Serialize for (.*)>::serialize$")
 
 
+def custom_msgtype_rule(ctx, w):
+    """An unknown `msgtype` is kept as MessageType::_Custom, whose payload collects EVERY other key of the JSON object it is parsed from in a
+    flattened map. RoomMessageEventContent (and ..WithoutRelation) parse the message type from the whole content object and serialize
+    `m.mentions` / the relation (`m.relates_to`, `m.new_content`) themselves: unless those keys are taken out of the custom payload, they are
+    written twice and the text no longer parses (`duplicate field`). Decided from the call graph of the two hand-written Deserialize impls:
+    the keys the outer type writes itself are removed from a serde_json map there (directly or in a private helper of the module)."""
+    rule = "C18.custom-msgtype"
+    ctx.rule(rule, "Deserialize for RoomMessageEventContent / RoomMessageEventContentWithoutRelation: the keys the content type serializes itself are removed from the "
+                   "catch-all map of a custom message type (m.mentions; with relation also m.relates_to and m.new_content)")
+    need = {"RoomMessageEventContent": {"m.mentions", "m.relates_to", "m.new_content"}, "RoomMessageEventContentWithoutRelation": {"m.mentions"}}
+    MOD = "ruma_events::room::message::content_serde::"
+    n = 0
+    for g in w.all_fns():
+        m = re.search(r"content_serde::<impl serde_core::de::Deserialize<'de> for ruma_events::room::message::(?:\w+::)*(RoomMessageEventContent(?:WithoutRelation)?)>::deserialize$", g["path"])
+        if not m or "body" not in g:
+            continue
+        n += 1
+        fam = [g]
+        for body in M.all_bodies(g):
+            for _, c in M.calls(body):
+                cn = M.callee_name(c)
+                if cn.startswith(MOD) and "<" not in cn[len(MOD):]:
+                    fam += [h for h in w.fn_index.get(cn, []) if "body" in h]
+        removed = set()
+        for h in fam:
+            for body in M.all_bodies(h):
+                defs_ = PC.roots(body)
+                for _, c in M.calls(body):
+                    cn = M.callee_name(c)
+                    if cn.rsplit("::", 1)[-1] in ("remove", "shift_remove", "swap_remove", "remove_entry") and ("serde_json::map::Map" in cn or "BTreeMap" in cn) and len(c["args"]) >= 2:
+                        e_ = PC.expr(body, defs_, c["args"][1])
+                        if e_[0] == "const" and isinstance(e_[1], str):
+                            removed.add(e_[1])
+        missing = sorted(need[m.group(1)] - removed)
+        ctx.check(not missing, rule, f"{rule}:{m.group(1)}", w.where(g),
+                  bad_msg=f"{m.group(1)}: a custom message type is parsed from the whole content object and keeps {missing} in its data, which {m.group(1)} writes itself as well: "
+                          f"after one parse the content serializes those keys twice (e.g. a reply with an unknown msgtype), and parsing that text fails with `duplicate field`")
+    ctx.floor("hand-written deserializers of the room message content", n, 2)
+
+
 def unique_keys_rule(ctx, w):
     """C18.unique-keys: a derived Serialize never writes one key twice into the same JSON object. serde_json writes duplicate keys as they come,
     and reading the text back then fails (`duplicate field`) or, under an untagged fallback, silently lands in another variant. Two compositions
@@ -121,11 +161,28 @@ def unique_keys_rule(ctx, w):
             return None
         keys = set()
         for body in M.all_bodies(fn):
+            defs_ = None
             for _, c in M.calls(body):
                 n_ = M.callee_name(c)
                 last = n_.rsplit("::", 1)[-1]
-                if last in ("serialize_field", "serialize_entry") and len(c["args"]) >= 2 and c["args"][1].get("k") == "const" and isinstance(c["args"][1].get("v"), str):
-                    keys.add(c["args"][1]["v"])
+                if last in ("serialize_field", "serialize_entry") and len(c["args"]) >= 2:
+                    if c["args"][1].get("k") == "const" and isinstance(c["args"][1].get("v"), str):
+                        keys.add(c["args"][1]["v"])
+                    elif c["args"][1].get("k") in ("copy", "move"):
+                        # serialize_entry(&mut map, "key", &value): the key is a reference to a promoted constant
+                        if defs_ is None:
+                            defs_ = PC.roots(body)
+                        e_ = PC.expr(body, defs_, c["args"][1])
+                        while e_[0] in ("field", "variant", "cast") and len(e_) > 1 and isinstance(e_[1], tuple):
+                            e_ = e_[1]
+                        if e_[0] == "const" and isinstance(e_[1], str):
+                            keys.add(e_[1])
+                        elif e_[0] == "const?" and fn.get("promoted"):
+                            for pb in fn["promoted"]:
+                                for b_ in pb["blocks"]:
+                                    for st in b_["s"]:
+                                        if st[0] == "=" and st[2][0] == "use" and st[2][1].get("k") == "const" and isinstance(st[2][1].get("v"), str):
+                                            keys.add(st[2][1]["v"])
                 if last == "serialize_tagged_newtype" and len(c["args"]) >= 5 and c["args"][3].get("k") == "const":
                     keys.add(c["args"][3]["v"])
         return keys
@@ -155,8 +212,67 @@ def unique_keys_rule(ctx, w):
                     both = sorted((own or set()) & ck)
                     ctx.check(not both, "C18.unique-keys", f"C18.unique-keys:flatten:{ty}<-{child}", w.where(fn),
                               bad_msg=f"{ty} flattens {child}, which writes key(s) {both} that {ty} writes too")
+    # generic helpers (`struct Helper<'a, T> { key: .., #[serde(flatten)] inner: T }`): the flattened type is known at the call sites only
+    generic = {}
+    for ty, fn in impls.items():
+        own = keys_of(ty)
+        for body in M.all_bodies(fn):
+            for _, c in M.calls(body):
+                fa = c.get("fnargs") or []
+                if M.callee_name(c).endswith("::serialize") and any("FlatMapSerializer" in x for x in fa) and fa and re.fullmatch(r"&*\w", fa[0]):
+                    generic[ty.split("<")[0]] = (own or set(), fn)
+    n_gen = 0
+    for ty, fn in sorted(impls.items()):
+        for body in M.all_bodies(fn):
+            for _, c in M.calls(body):
+                fa = c.get("fnargs") or []
+                if not (M.callee_name(c).endswith("::serialize") and fa):
+                    continue
+                base = fa[0].lstrip("&").split("<")[0]
+                if base not in generic or "<" not in fa[0]:
+                    continue
+                inner = fa[0][fa[0].index("<") + 1:fa[0].rindex(">")]
+                args = [a_.strip().lstrip("&") for a_ in re.split(r",\s*(?![^<]*>)", inner) if not a_.strip().startswith("'")]
+                for child in args:
+                    ck = keys_of(child)
+                    if ck is None:
+                        continue
+                    n_gen += 1
+                    both = sorted(generic[base][0] & ck)
+                    ctx.check(not both, "C18.unique-keys", f"C18.unique-keys:flatten:{base.rsplit('::', 1)[-1]}<{child.rsplit('::', 1)[-1]}>@{ty.rsplit('::', 1)[-1]}", w.where(fn),
+                              bad_msg=f"{ty} serializes through {base}<{child}>, which writes {sorted(generic[base][0])} and flattens {child}, which writes key(s) {both} itself: "
+                                      f"the JSON text has the key twice")
+    ctx.floor("instantiations of generic flatten helpers", n_gen, 1)
     ctx.floor("internally tagged newtype variants", n_tag, 10)
     ctx.floor("flattened fields with a derived Serialize", n_flat, 5)
+
+
+def no_borrowed_str_rule(ctx, w, rule, floor=1200):
+    """Nothing is requested from the deserializer as a borrowed &str / &[u8] (shared with C19: a string enum's hand-written Deserialize that reads its tag
+    as &str rejects every spelling that needs a JSON escape)."""
+    ctx.rule(rule, "no field or element is requested from the deserializer as `&str` / `&[u8]` (directly or inside Option): serde_json can lend a "
+                                    "string only when it contains no escape sequence, so `\"caf\\u00e9\"` or `\"a\\\"b\"` would fail where the same value "
+                                    "spelled without escapes succeeds (use Cow<str> with #[serde(borrow)] or String)")
+    n_reads, borrowed = 0, []
+    for fn in w.all_fns():
+        if "body" not in fn:
+            continue
+        for body in M.all_bodies(fn):
+            for _, c in M.calls(body):
+                nm = M.callee_name(c)
+                if re.search(r"(MapAccess|SeqAccess)(<'de>)?::next_(value|element|key|entry)(_seed)?$", nm) or nm.endswith("Deserialize<'de>>::deserialize"):
+                    n_reads += 1
+                    fa = c.get("fnargs") or []
+                    if any(re.search(r"(^|<|, )&('\w+ )?(str|\[u8\])(>|,|$)", a) for a in fa):
+                        borrowed.append((fn, c["line"], [a for a in fa if "str" in a or "[u8]" in a][:1]))
+    for fn, line, ty_ in borrowed[:6]:
+        ctx.violation(rule, f"{rule}:{PC.key_path(fn['path'])[:150]}", w.where(fn, line),
+                      f"reads a value as {ty_}: deserialization fails for input whose string contains a JSON escape (e.g. a state key `@caf\\u00e9:hs`), "
+                      f"although the same value without escapes is accepted")
+    if not borrowed:
+        ctx.ok(rule, f"{rule}:scan", "", f"{n_reads} deserializer reads, none for a borrowed string")
+    ctx.floor("deserializer reads scanned", n_reads, floor)
+
 
 
 def run(ctx):
@@ -319,30 +435,12 @@ def run(ctx):
     ctx.count("types_with_required_fields", len(req))
     ctx.floor("derived types with skippable fields", len(skip), 50)
     unique_keys_rule(ctx, w)
+    custom_msgtype_rule(ctx, w)
+    # the two hand-written deserializers of m.room.redaction (full / sync) must accept the same events: both `redacts` locations are valid
+    from . import C17 as _C17
+    _C17.redacts_fallback_rule(ctx, w, "C18.redaction-siblings")
     # ---- nothing is read as a borrowed string -----------------------------------------------------------------------------------------------
-    ctx.rule("C18.no-borrowed-str", "no field or element is requested from the deserializer as `&str` / `&[u8]` (directly or inside Option): serde_json can lend a "
-                                    "string only when it contains no escape sequence, so `\"caf\\u00e9\"` or `\"a\\\"b\"` would fail where the same value "
-                                    "spelled without escapes succeeds (use Cow<str> with #[serde(borrow)] or String)")
-    n_reads, borrowed = 0, []
-    for fn in w.all_fns():
-        if "body" not in fn:
-            continue
-        for body in M.all_bodies(fn):
-            for _, c in M.calls(body):
-                nm = M.callee_name(c)
-                if re.search(r"(MapAccess|SeqAccess)(<'de>)?::next_(value|element|key|entry)(_seed)?$", nm) or nm.endswith("Deserialize<'de>>::deserialize"):
-                    n_reads += 1
-                    fa = c.get("fnargs") or []
-                    if any(re.search(r"(^|<|, )&('\w+ )?(str|\[u8\])(>|,|$)", a) for a in fa):
-                        borrowed.append((fn, c["line"], [a for a in fa if "str" in a or "[u8]" in a][:1]))
-    for fn, line, ty_ in borrowed[:6]:
-        ctx.violation("C18.no-borrowed-str", f"C18.no-borrowed-str:{PC.key_path(fn['path'])[:150]}", w.where(fn, line),
-                      f"reads a value as {ty_}: deserialization fails for input whose string contains a JSON escape (e.g. a state key `@caf\\u00e9:hs`), "
-                      f"although the same value without escapes is accepted")
-    if not borrowed:
-        ctx.ok("C18.no-borrowed-str", "C18.no-borrowed-str:scan", "", f"{n_reads} deserializer reads, none for a borrowed string")
-    ctx.floor("deserializer reads scanned", n_reads, 1200)
-
+    no_borrowed_str_rule(ctx, w, "C18.no-borrowed-str")
     # ---- what may be omitted is what a missing field is read as ------------------------------------------------------------------------
     ctx.rule("C18.defaults", "per derived Serialize/Deserialize pair: the values a `skip_serializing_if` predicate lets Serialize omit are, with multiplicity, the "
                              "values Deserialize fills in for a missing field (`is_default` <-> Default::default(), `x == 50` <-> a default function returning 50, ...): "
